@@ -31,6 +31,19 @@ pub struct SpaceCase {
     pub tie_seed: u64,
     /// BitVectorMut only: reserve this much extra capacity up front
     pub extra_capacity: u32,
+    /// bit structures: the bits come from the bit generators (densities, runs, sparse / dense
+    /// groups) instead of the parity of the recipe's symbols
+    #[serde(default)]
+    pub bits: Option<crate::bitgen::BitContent>,
+}
+
+impl SpaceCase {
+    fn bit_vector(&self, s: &[u128]) -> Vec<bool> {
+        match &self.bits {
+            Some(b) => b.expand(),
+            None => s.iter().map(|x| x & 1 == 1).collect(),
+        }
+    }
 }
 
 fn n_strategy(kmin: u32, kmax: u32, small: bool) -> BoxedStrategy<usize> {
@@ -47,9 +60,20 @@ fn n_strategy(kmin: u32, kmax: u32, small: bool) -> BoxedStrategy<usize> {
 }
 
 fn recipe(n: BoxedStrategy<usize>, cap: u128, profiles: BoxedStrategy<Profile>) -> BoxedStrategy<Recipe> {
-    (n, alphabet(cap, 256), profiles, prop_oneof![3 => Just(Arr::Shuffled), 1 => Just(Arr::Sorted), 1 => (0u8..=10).prop_map(Arr::Runs)], any::<u64>())
+    (n, alphabet(cap, 256), profiles, prop_oneof![3 => Just(Arr::Shuffled), 1 => Just(Arr::Sorted), 1 => (0u8..=10).prop_map(Arr::Runs), 2 => (any::<bool>(), 1u8..=8).prop_map(|(h, k)| Arr::Padded(h, k)), 1 => Just(Arr::Packed), 1 => Just(Arr::Periodic)], any::<u64>())
         .prop_map(|(n, alphabet, profile, arr, seed)| Recipe { n, alphabet, profile, arr, seed })
         .boxed()
+}
+
+/// bits for the bit structures: every density, runs, blocks, and DArray groups (sparse ones matter
+/// for the overflow positions of DArray)
+fn bit_content(max_n: usize) -> BoxedStrategy<crate::bitgen::BitContent> {
+    prop_oneof![
+        1 => crate::bitgen::explicit_bits(3000),
+        5 => crate::bitgen::recipe_bits(3001, max_n),
+        3 => crate::bitgen::groups_content(4),
+    ]
+    .boxed()
 }
 
 fn how_of(path: u8) -> How {
@@ -137,12 +161,14 @@ impl Prop for C14 {
         let others = vec![SpKind::Quad(QuadKind::Rs256), SpKind::Quad(QuadKind::Rs512), SpKind::Bits(BitsKind::Wide)];
         let kind = prop_oneof![4 => proptest::sample::select(trees), 1 => proptest::sample::select(others)];
         let budget: usize = if tier == Tier::Quick { 6_000_000 } else { 40_000_000 };
+        let max_bits: usize = if tier == Tier::Quick { 1 << 20 } else { 1 << 23 };
         kind.prop_flat_map(move |kind| {
             let cap = match kind { SpKind::Tree(_, ty) => ty.max(), SpKind::Quad(_) => 3, SpKind::Bits(_) => 1 };
             let prof = prop_oneof![3 => Just(Profile::Uniform), 1 => (1u8..=2).prop_map(Profile::Zipf), 1 => (4u8..=7).prop_map(Profile::Geometric)].boxed();
             (Just(kind), any::<u8>(), recipe(n_strategy(12, kmax, true), cap, prof), any::<u64>())
         })
-        .prop_map(move |(kind, path, mut recipe, tie_seed)| {
+        .prop_flat_map(move |(kind, path, recipe, tie_seed)| (Just((kind, path, recipe, tie_seed)), bit_content(max_bits)))
+        .prop_map(move |((kind, path, mut recipe, tie_seed), bits)| {
             // bound n * levels
             let levels = match kind {
                 SpKind::Tree(k, _) => {
@@ -154,7 +180,8 @@ impl Prop for C14 {
             while recipe.n * levels > budget && recipe.n > 4096 {
                 recipe.n = recipe.n / 2 + 1;
             }
-            SpaceCase { kind, path, recipe, tie_seed, extra_capacity: 0 }
+            let bits = if matches!(kind, SpKind::Bits(_)) { Some(bits) } else { None };
+            SpaceCase { kind, path, recipe, tie_seed, extra_capacity: 0, bits }
         })
         .boxed()
     }
@@ -206,7 +233,8 @@ impl Prop for C14 {
                 ensure!((h as f64) <= bound, "{}: retains {} heap bytes for n = {}; bound {:.0}", kind.name(), h, n, bound);
             }
             SpKind::Bits(kind) => {
-                let b: Vec<bool> = s.iter().map(|x| x & 1 == 1).collect();
+                let b: Vec<bool> = c.bit_vector(&s);
+                let n = b.len();
                 let (v, h) = measure_bits(kind, c.path, &b, 0);
                 ensure!(v.len() == Some(n), "len");
                 let bound = 1.05 * n as f64 / 8.0 + 512.0 + 256.0;
@@ -241,7 +269,7 @@ impl Prop for C15 {
                 ].boxed();
                 (Just(kind), Just(path), recipe(n_strategy(14, kmax, true), cap, prof), Just(tie))
             })
-            .prop_map(|(kind, path, recipe, tie_seed)| SpaceCase { kind, path, recipe, tie_seed, extra_capacity: 0 })
+            .prop_map(|(kind, path, recipe, tie_seed)| SpaceCase { kind, path, recipe, tie_seed, extra_capacity: 0, bits: None })
             .boxed()
     }
     fn cases(&self, tier: Tier, _b: &str) -> u32 {
@@ -325,6 +353,7 @@ impl Prop for C16 {
     fn strategy(&self, tier: Tier, _b: &str) -> BoxedStrategy<SpaceCase> {
         let kmax = if tier == Tier::Quick { 18 } else { 21 };
         let budget: usize = if tier == Tier::Quick { 4_000_000 } else { 30_000_000 };
+        let max_bits: usize = if tier == Tier::Quick { 1 << 20 } else { 1 << 23 };
         (proptest::sample::select(all_space_kinds()), any::<u8>(), any::<u64>(), prop_oneof![2 => Just(0u32), 1 => 1u32..100_000])
             .prop_flat_map(move |(kind, path, tie, extra)| {
                 let cap = match kind {
@@ -336,7 +365,8 @@ impl Prop for C16 {
                 let n = prop_oneof![2 => n_strategy(12, kmax, true), 1 => 0usize..=70_000].boxed();
                 (Just(kind), Just(path), recipe(n, cap, prof), Just(tie), Just(extra))
             })
-            .prop_map(move |(kind, path, mut recipe, tie_seed, extra_capacity)| {
+            .prop_flat_map(move |(kind, path, recipe, tie_seed, extra_capacity)| (Just((kind, path, recipe, tie_seed, extra_capacity)), bit_content(max_bits)))
+            .prop_map(move |((kind, path, mut recipe, tie_seed, extra_capacity), bits)| {
                 let levels = match kind {
                     SpKind::Tree(k, ty) => if k.is_huffman() { 10 } else { crate::props::seqexact::plain_levels(k, recipe.alphabet.iter().copied().max().unwrap_or(0)).min(ty.bits() as usize) },
                     _ => 1,
@@ -344,7 +374,8 @@ impl Prop for C16 {
                 while recipe.n * levels > budget && recipe.n > 4096 {
                     recipe.n = recipe.n / 2 + 1;
                 }
-                SpaceCase { kind, path, recipe, tie_seed, extra_capacity }
+                let bits = if matches!(kind, SpKind::Bits(_)) { Some(bits) } else { None };
+                SpaceCase { kind, path, recipe, tie_seed, extra_capacity, bits }
             })
             .boxed()
     }
@@ -420,7 +451,7 @@ impl Prop for C16 {
                 }
             }
             SpKind::Bits(kind) => {
-                let b: Vec<bool> = s.iter().map(|x| x & 1 == 1).collect();
+                let b: Vec<bool> = c.bit_vector(&s);
                 let (v, h) = measure_bits(kind, c.path, &b, c.extra_capacity as usize);
                 let who = kind.name();
                 let (r, a) = (v.space_usage_byte(), h + v.size_of_val());
